@@ -477,6 +477,12 @@ func runC17(c c17Case, tr *vw.Trace) *vw.Violation {
 	if v := wait("before close"); v != nil {
 		return v
 	}
+	// the connection may have been replaced while waiting (an armed drop): take the counts right before Close
+	cur = p.current()
+	p.mu.Lock()
+	nconn = len(p.conns)
+	msgsBefore = cur.msgs
+	p.mu.Unlock()
 	if c.CloseWhileDown {
 		tr.Class("close-while-disconnected")
 		p.mu.Lock()
